@@ -605,6 +605,8 @@ def misaligned_index_keys(R, bodies):
         tb = R.terms(b, 0)
         for h, bl in b.loops():
             p = loop_pipeline(b, tb, h)
+            if p is None:
+                p = _raw_enumerate(b, tb, h, bl)
             if p is None or p.index_component is None:
                 continue
             idx = ("field", p.elem, p.index_component)
@@ -622,6 +624,38 @@ def misaligned_index_keys(R, bodies):
                             aligned += 1
                         break
     return out, aligned
+
+
+class _RawEnumerate:
+    pass
+
+
+DROPPING_STAGES = ("filter", "filter_map", "skip", "skip_while", "rev", "flat_map", "flatten", "step_by", "map_while")
+
+
+def _raw_enumerate(b, tb, h, bl):
+    """fallback for chains the Pipeline model does not read (filter_map, flat_map, …): only the question "is the loop variable
+    `(index, item)` of an `enumerate` that stands after a dropping stage" is answered"""
+    nx = [(i, t) for i, t in b.calls() if i in bl and parse_callee(t["callee"])[2] == "next" and t.get("target") is not None
+          and b.term(t["target"])["k"] == "switch"]
+    if len(nx) != 1:
+        return None
+    i, t = nx[0]
+    tb0 = Terms(tb.facts, b, inline_depth=0)
+    recv = tb0.operand(t["args"][0])
+    x = recv[2] if isinstance(recv, tuple) and recv and recv[0] == "var" and len(recv) > 2 else recv
+    stages = []
+    while isinstance(x, tuple) and x and x[0] == "call" and x[2]:
+        stages.append(parse_callee(x[1])[2])
+        x = x[2][0]
+    outer = [m for m in stages if m not in ("iter", "into_iter", "by_ref", "copied", "cloned", "iter_mut", "peekable", "fuse")]
+    if not outer or outer[0] != "enumerate":
+        return None
+    r = _RawEnumerate()
+    r.elem = ("some", tb.call_term(t))
+    r.index_component = "0"
+    r.index_misaligned_by = [m for m in outer[1:] if m in DROPPING_STAGES]
+    return r
 
 
 def loop_pipeline(b, tb, bb):
